@@ -12,6 +12,7 @@ package main
 
 import (
 	"fmt"
+	"os"
 	"go/token"
 	"go/types"
 	"sort"
@@ -481,6 +482,26 @@ func (t *Taint) sinkFunc(fn *ssa.Function) {
 	add := func(in ssa.Instruction, v ssa.Value, what string) {
 		l := t.val[v]
 		if l >= tElem {
+			if _, isPhi := v.(*ssa.Phi); isPhi {
+				// copy-on-first-write kept in a variable with a flag (`row, copied := data, false; ...
+				// if !copied { row = copyOf(data); copied = true }; row[k] = v`): path by path, what the
+				// merged variable stands for at the write
+				leaves, complete := pathLeavesAt(fn, in, v)
+				if os.Getenv("VERIF_DEBUG") != "" {
+					fmt.Fprintf(os.Stderr, "pathLeavesAt %s complete=%v leaves=%v\n", fname(fn), complete, leaves)
+				}
+				if complete && len(leaves) > 0 {
+					worst := taintLevel(0)
+					for _, lf := range leaves {
+						if t.val[lf] > worst {
+							worst = t.val[lf]
+						}
+					}
+					if worst < tElem {
+						return
+					}
+				}
+			}
 			t.sinks = append(t.sinks, taintSink{In: in, Fn: fn, What: what, Lvl: l})
 		}
 	}
